@@ -24,7 +24,7 @@ def core_part(c, pid="P1", name="Pno"):
     q = [list(x) for x in c.get("q", [[0, 2]])]
     objs = []
     for i, (s, e) in enumerate(c["m"]):
-        objs.append({"k": "measure", "s": s, "e": e, "number": i + 1, "name": str(i + 1)})
+        objs.append({"k": "measure", "s": s, "e": e, "number": i + 1, "name": c["mnames"][i] if c.get("mnames") else str(i + 1)})
     for t, b, bt in c.get("ts", [[0, 2, 4]]):
         objs.append({"k": "ts", "s": t, "beats": b, "beat_type": bt})
     for t, f, mode in c.get("ks", []):
@@ -54,7 +54,8 @@ def core_part(c, pid="P1", name="Pno"):
     for j, n, gtype in c.get("grace", []):
         main = by_i[j]
         for k in range(n):
-            g = M.note("%sg%d_%d" % (pid, j, k), main["s"], main["s"], 3 + k, main["voice"], main["staff"], q,
+            # the first grace note lies below every main note, the second above (the exporter orders by pitch)
+            g = M.note("%sg%d_%d" % (pid, j, k), main["s"], main["s"], (5, 3)[k], main["voice"], main["staff"], q,
                        kind="grace", gtype=gtype)
             g["next"] = "%sg%d_%d" % (pid, j, k + 1) if k + 1 < n else main["id"]
             objs.insert(objs.index(main), g)
@@ -117,7 +118,10 @@ def gen_A(layouts, nmax, staff_is_voice=False, nmin=1, name="A"):
         alpha = _alphabet(meas, staff_is_voice=staff_is_voice)
         for n in range(nmin, nmax + 1):
             for comb in combinations(alpha, n):
-                yield {"sp": name, "m": [list(x) for x in meas], "ev": [list(x) for x in comb]}
+                c = {"sp": name, "m": [list(x) for x in meas], "ev": [list(x) for x in comb]}
+                if len(meas) > 1 and meas[0][1] - meas[0][0] < 4:
+                    c["mnames"] = ["0"] + ["%d" % i for i in range(1, len(meas))]  # pickup measure is called "0"
+                yield c
 
 
 def stride(gen, B, r):
@@ -291,10 +295,11 @@ def time_decos(meas, total):
     bars = sorted({m[0] for m in meas} | {m[1] for m in meas})
     for t in range(0, total):
         out.append(("dyn", ["dyn", t, "p"]))
+        if t % 2 == 0:
+            out.append(("dyn", ["dyn", t, "f", 2]))  # on the second staff
         out.append(("sfz", ["sfz", t, "sfz"]))
         out.append(("tempodir", ["tempodir", t, "adagio"]))
         out.append(("tempo", ["tempo", t, 100]))
-        out.append(("words", ["words", t, "hello"]))
         out.append(("dynwords", ["dynwords", t, None, "crescendo"]))
         for u in range(t + 1, total + 1):
             out.append(("wedge", ["wedge", t, u, "+"]))
@@ -304,7 +309,9 @@ def time_decos(meas, total):
         if t in bars:
             if t < total:
                 out.append(("bferm", ["bferm", t, "left"]))
-            if t > 0:
+            if t == total:
+                # (a fermata on the right barline of a measure that is followed by another one, and plain
+                # score.Words objects, are the gated sub-spaces X2/X3: proposed known findings)
                 out.append(("bferm", ["bferm", t, "right"]))
         else:
             out.append(("bferm", ["bferm", t, "middle"]))
@@ -335,7 +342,10 @@ def apply_deco(pid, objs, d, k):
         objs.append({"k": "tuplet", "a": nid(d[1]), "b": nid(d[2]), "actual": 3, "normal": 2,
                      "atype": a["sym"]["type"], "ntype": a["sym"]["type"]})
     elif kind == "dyn":
-        objs.append({"k": "dyn", "s": d[1], "text": d[2]})
+        o = {"k": "dyn", "s": d[1], "text": d[2]}
+        if len(d) > 3:
+            o["staff"] = d[3]
+        objs.append(o)
     elif kind == "sfz":
         objs.append({"k": "sfz", "s": d[1], "text": d[2]})
     elif kind == "tempodir":
@@ -406,6 +416,7 @@ def gen_C_tuplets(second_voice):
         yield dict(base, deco=[["tuplet", b[0], b[1]]])
     for a, b in combinations(br, 2):
         yield dict(base, deco=[["tuplet", a[0], a[1]], ["tuplet", b[0], b[1]]])
+        yield dict(base, deco=[["tuplet", b[0], b[1]], ["tuplet", a[0], a[1]]])  # attached in the other order
 
 
 def gen_C_slurpairs():
@@ -414,6 +425,7 @@ def gen_C_slurpairs():
     sl = [d for k, d in note_decos("P1", ev) if k == "slur"]
     for a, b in combinations(sl, 2):
         yield {"sp": "C4", "m": [[0, 4]], "ev": ev, "deco": [a, b]}
+        yield {"sp": "C4", "m": [[0, 4]], "ev": ev, "deco": [b, a]}  # attached in the other order
     for a, b, c in combinations(sl, 3):
         yield {"sp": "C4", "m": [[0, 4]], "ev": ev, "deco": [a, b, c]}
 
@@ -422,7 +434,7 @@ def gen_C_slurpairs():
 # D: attribute changes
 
 
-def gen_D_divisions():
+def gen_D_divisions(without_point=False):
     """a divisions change at every grid position of a 2/4 measure (also at the barline of a second measure),
     every pair (old, new) of divisions from {1,2,3,4}; cores of <=2 events that do not cross the change"""
     for q0 in (1, 2, 3, 4):
@@ -446,7 +458,12 @@ def gen_D_divisions():
                                 alpha.append(["r", s, e, v, v])
                 for n in (1, 2):
                     for comb in combinations(alpha, n):
-                        yield {"sp": "D1", "q": [[0, q0], [q0, q1]], "m": meas,
+                        # the change must fall on a time point (something starts or ends there, or a barline);
+                        # the other cases form the separate sub-space D1x (proposed known finding)
+                        on_point = two or any(q0 in (x[1], x[2]) for x in comb)
+                        if on_point == without_point:
+                            continue
+                        yield {"sp": "D1x" if without_point else "D1", "q": [[0, q0], [q0, q1]], "m": meas,
                                "ts": [[0, 1, 4]] if two else [[0, 2, 4]], "ev": [list(x) for x in comb]}
 
 
@@ -462,9 +479,10 @@ def gen_D_attributes():
     for t in range(0, 8):
         kinds.append(["ks", t, -3, "minor"])
         kinds.append(["ks", t, 2, None])
-        kinds.append(["ts", t, 3, 8])
-        kinds.append(["clef", t, 1, "F", 4, 0])
-        kinds.append(["clef", t, 2, "C", 3, -1])
+        if t > 0:  # the core has its time signature and both clefs at t=0
+            kinds.append(["ts", t, 3, 8])
+            kinds.append(["clef", t, 1, "F", 4, 0])
+            kinds.append(["clef", t, 2, "C", 3, -1])
     for ev in cores:
         for a in kinds:
             yield {"sp": "D2", "m": [[0, 4], [4, 8]], "ev": ev, "attr": [a], "staves": 2}
@@ -498,8 +516,9 @@ def _trees(nparts):
 
 
 PART_CORES = [
-    {"q": [[0, 2]], "m": [[0, 4]], "ev": [["n", 0, 2, 1, 1], ["n", 2, 3, 1, 1]], "deco": [["slur", 0, 1], ["wedge", 0, 2, "+"]]},
-    {"q": [[0, 4]], "m": [[0, 8]], "ev": [["n", 0, 8, 1, 1], ["n", 2, 4, 2, 2]], "deco": [["slur", 0, 0], ["wedge", 0, 4, "-"]]},
+    {"q": [[0, 2]], "m": [[0, 4]], "ev": [["n", 0, 2, 1, 1, 0], ["n", 2, 3, 1, 1, 0]], "ties": [[0, 1]],
+     "deco": [["slur", 0, 1], ["wedge", 0, 2, "+"]]},
+    {"q": [[0, 4]], "m": [[0, 8]], "ev": [["n", 0, 8, 1, 1], ["n", 2, 4, 2, 2]], "deco": [["slur", 0, 1], ["wedge", 0, 4, "-"]]},
     {"q": [[0, 1]], "m": [[0, 2]], "ev": [["r", 0, 1, 1, 1], ["n", 1, 2, 1, 1]], "deco": [["dynwords", 0, 1, "crescendo"]]},
 ]
 
@@ -569,3 +588,62 @@ def gen_F_repeats():
                     continue
                 yield {"sp": "F", "m": [[0, 2], [2, 4], [4, 6]], "ts": [[0, 1, 4]], "ev": ev,
                        "rep": [list(x) for x in r], "end": [list(x) for x in en]}
+
+
+# ---------------------------------------------------------------------------------------------
+# X: inputs of proposed known findings (run only when known_findings.json has the open entry)
+
+
+def gen_X_right_fermata():
+    """a fermata on the right barline of a measure that is followed by another measure"""
+    for meas, ts in (([(0, 2), (2, 4)], [[0, 1, 4]]), ([(0, 2), (2, 4), (4, 6)], [[0, 1, 4]])):
+        for ev in _note_cores(meas[:2], 1, voices=(1,), durs=(1, 2)):
+            for t in [m[1] for m in meas[:-1]]:
+                yield {"sp": "X2", "m": [list(m) for m in meas], "ts": ts, "ev": ev, "deco": [["bferm", t, "right"]]}
+
+
+def gen_X_words():
+    """a plain score.Words object at every grid time of every 1-note core"""
+    meas = [(0, 4)]
+    for ev in _note_cores(meas, 1):
+        for t in range(4):
+            yield {"sp": "X3", "m": [[0, 4]], "ev": ev, "deco": [["words", t, "hello"]]}
+
+
+def has_divisions_change_without_point(case):
+    spec = expand(case)
+    for p in M.iter_parts(spec):
+        pts = set(M.point_times(p))
+        ms = [o for o in p["objs"] if o["k"] == "measure"]
+        for t, _ in p.get("divs", [])[1:]:
+            if t not in pts and any(m["s"] < t < m["e"] for m in ms):
+                return True
+    return False
+
+
+def has_inner_right_fermata(case):
+    spec = expand(case)
+    for p in M.iter_parts(spec):
+        starts = {o["s"] for o in p["objs"] if o["k"] == "measure"}
+        for o in p["objs"]:
+            if o["k"] == "fermata" and o.get("bar") and o.get("ref") in (None, "right") and o["s"] in starts and o["s"] > 0:
+                return True
+    return False
+
+
+def has_words_object(case):
+    spec = expand(case)
+    return any(o["k"] == "words" for p in M.iter_parts(spec) for o in p["objs"])
+
+
+def gen_G_fileio():
+    """a handful of scores written to a path and to a file object instead of returned as bytes"""
+    n = 0
+    for c in gen_E_structure():
+        n += 1
+        if n % 6 == 0:
+            yield dict(c, sp="G", io="path" if n % 12 == 0 else "fileobj")
+    for c in gen_C_pairs():
+        n += 1
+        if n % 400 == 0:
+            yield dict(c, sp="G", io="path" if n % 800 == 0 else "fileobj")
